@@ -50,8 +50,8 @@ fn park(task: usize) -> bool {
     if me == usize::MAX || ACTIVE.load(SeqCst) == 0 {
         let t0 = std::time::Instant::now();
         loop {
-            if WOKEN[task].swap(false, SeqCst) { return true; }
-            if t0.elapsed() > std::time::Duration::from_millis(30) { return false; }
+            if task == SENDERS_DONE { if WOKEN[task].load(SeqCst) { return true; } } else if WOKEN[task].swap(false, SeqCst) { return true; }
+            if t0.elapsed() > std::time::Duration::from_millis(if task == SENDERS_DONE { 2000 } else { 30 }) { return false; }
             std::thread::yield_now();
         }
     }
@@ -64,9 +64,13 @@ fn park(task: usize) -> bool {
     s.turn = None; s.st[me] = St::Running;
     PARKED_TASK[me].store(usize::MAX, SeqCst);
     drop(g);
-    WOKEN[task].store(false, SeqCst);
+    if task != SENDERS_DONE { WOKEN[task].store(false, SeqCst); }
     true
 }
+
+/// pseudo task: "every thread whose program starts with `send` has returned" (set by the thread runner)
+const SENDERS_DONE: usize = 3;
+static LIVE_SENDERS: AtomicUsize = AtomicUsize::new(0);
 
 fn task_waker(task: usize) -> std::task::Waker {
     use std::task::{RawWaker, RawWakerVTable, Waker};
@@ -383,7 +387,62 @@ fn make_multi(kind: &str, n: usize) -> Option<Arc<dyn Obj>> {
     }
 }
 
+/// the mmap log topic (MMapMeta<u32>): publishers, and listeners that subscribe, poll `kc` times while publishers run, wait for the
+/// publishers to return and then drain `kd` times (arg = kc*16 + kd)
+struct MmapMetaObj { meta: Arc<reactive_mutiny::ogre_std::ogre_queues::log_topics::mmap_meta::MMapMeta<'static, u32>> }
+unsafe impl Send for MmapMetaObj {}
+unsafe impl Sync for MmapMetaObj {}
+impl MmapMetaObj {
+    fn new(cap: usize) -> Self {
+        use reactive_mutiny::ogre_std::ogre_queues::meta_topic::MetaTopic;
+        static N: AtomicUsize = AtomicUsize::new(0);
+        let path = format!("/tmp/rmreplay-{}-{}.mmap", std::process::id(), N.fetch_add(1, SeqCst));
+        let meta = reactive_mutiny::ogre_std::ogre_queues::log_topics::mmap_meta::MMapMeta::<u32>::new(path.clone(), cap as u64).expect("mmap log");
+        let _ = std::fs::remove_file(&path);
+        Self { meta }
+    }
+}
+impl Obj for MmapMetaObj {
+    fn op(&self, name: &str, arg: u64, _prev: &[u64]) -> (u64, String) {
+        use reactive_mutiny::ogre_std::ogre_queues::meta_subscriber::MetaSubscriber;
+        let (kc, kd) = ((arg / 16) as usize, (arg % 16) as usize);
+        fn take<'a, S: MetaSubscriber<'a, u32>>(s: &S) -> Option<u32> { s.consume(|slot| *slot, || false, |_| {}) }
+        let fmt = |v: &[u32]| v.iter().map(|x| x.to_string()).collect::<Vec<_>>().join(" ");
+        match name {
+            "send" => { let ok = self.meta.publish_movable(arg as u32).0.is_some(); (ok as u64, format!("ok {}", ok)) }
+            "listen_joined" | "listen_newonly" => {
+                let sub = if name == "listen_joined" { self.meta.subscribe_to_joined_old_and_new_events() } else { self.meta.subscribe_to_new_events_only() };
+                let mut got = vec![];
+                for _ in 0..kc { if let Some(v) = take(&sub) { got.push(v); } }
+                park(SENDERS_DONE);
+                for _ in 0..kd { if let Some(v) = take(&sub) { got.push(v); } }
+                let total = self.meta.available_elements_count();
+                let start = if name == "listen_joined" { 0 } else { total - got.len().min(total) };
+                (got.len() as u64, format!("{} {}", start, fmt(&got)))
+            }
+            "listen_split" => {
+                let (old, new) = self.meta.subscribe_to_separated_old_and_new_events();
+                let t = old.remaining_elements_count();
+                let (mut newv, mut oldv) = (vec![], vec![]);
+                for _ in 0..kc { if let Some(v) = take(&new) { newv.push(v); } }
+                park(SENDERS_DONE);
+                for _ in 0..kd { if let Some(v) = take(&new) { newv.push(v); } }
+                for _ in 0..kd + 1 { if let Some(v) = take(&old) { oldv.push(v); } }
+                (t as u64, format!("{} {} | {}", t, fmt(&newv), fmt(&oldv)))
+            }
+            "final_log" => {
+                let sub = self.meta.subscribe_to_joined_old_and_new_events();
+                let mut got = vec![];
+                while let Some(v) = take(&sub) { got.push(v); }
+                (got.len() as u64, fmt(&got))
+            }
+            _ => panic!("unknown op {}", name),
+        }
+    }
+}
+
 fn make(kind: &str, n: usize) -> Arc<dyn Obj> {
+    if kind.starts_with("MmapMeta") { return Arc::new(MmapMetaObj::new(n)); }
     if kind.starts_with("Multi") { return make_multi(kind, n).unwrap_or_else(|| panic!("unknown object kind {}", kind)); }
     if kind.starts_with("Stream") { return make_stream(kind, n).unwrap_or_else(|| panic!("unknown object kind {}", kind)); }
     macro_rules! pick { ($t:ident, $e:expr) => { match n { 2 => Arc::new($t::<2>($e)) as Arc<dyn Obj>, 4 => Arc::new($t::<4>($e)), 8 => Arc::new($t::<8>($e)), _ => panic!("N") } } }
@@ -428,11 +487,13 @@ fn main() {
             _ => panic!("unknown line {}", line),
         }
     }
+    let n_senders = threads.iter().filter(|p| p.first().map(|o| o.0 == "send").unwrap_or(false)).count();
     if free_rounds > 0 {
         // uncontrolled stress replay: the same thread programs on free-running OS threads, a fresh object per round;
         // used when the model schedule needs a switch INSIDE a statement, where no yield hook can sit
         for round in 0..free_rounds {
             verif::set_sequence_origins(origins);
+            LIVE_SENDERS.store(n_senders, SeqCst); WOKEN[SENDERS_DONE].store(n_senders == 0, SeqCst);
             let obj = make(&kind, n);
             let pre_op = if kind == "Stack" { "push" } else if kind.starts_with("Pool") { "alloc" } else { "send" };
             if kind.starts_with("OgreArc") { obj.op("create", prefill[0], &[]); for _ in 1..threads.len() { obj.op("handle", 0, &[]); } }
@@ -455,6 +516,7 @@ fn main() {
                             Err(_) => { lines.push(format!("panic {} {} panicked", t, j)); break; }
                         }
                     }
+                    if prog.first().map(|o| o.0 == "send").unwrap_or(false) && LIVE_SENDERS.fetch_sub(1, SeqCst) == 1 { WOKEN[SENDERS_DONE].store(true, SeqCst); }
                     out.lock().unwrap().extend(lines);
                 }));
             }
@@ -469,6 +531,7 @@ fn main() {
             }
             println!("round {}", round);
             for l in out.lock().unwrap().iter() { println!("{}", l); }
+            if kind.starts_with("MmapMeta") { let c = CLOCK.load(SeqCst); println!("ev {} 0 final_log 0 {} {} {}", threads.len(), c, c, obj.op("final_log", 0, &[]).1); }
             if kind.starts_with("Stream") {
                 // tasks that stopped polling because nothing woke them (park deadline) and whose waker was not invoked afterwards either
                 let ns: usize = kind.split(':').nth(2).map(|x| x.parse().unwrap()).unwrap_or(1);
@@ -482,6 +545,7 @@ fn main() {
         return;
     }
     verif::set_sequence_origins(origins);
+    LIVE_SENDERS.store(n_senders, SeqCst); WOKEN[SENDERS_DONE].store(n_senders == 0, SeqCst);
     let obj = make(&kind, n);
     let pre_op = if kind == "Stack" { "push" } else if kind.starts_with("Pool") { "alloc" } else { "send" };
     if kind.starts_with("OgreArc") {
@@ -517,11 +581,12 @@ fn main() {
                     }
                 }
             }
+            if prog.first().map(|o| o.0 == "send").unwrap_or(false) && LIVE_SENDERS.fetch_sub(1, SeqCst) == 1 { WOKEN[SENDERS_DONE].store(true, SeqCst); }
             let mut g = SCHED.lock().unwrap(); g.as_mut().unwrap().st[t] = St::Finished; CV.notify_all();
         }));
     }
     // wait until every thread sits at its first yield point (or finished without reaching one)
-    { let mut g = SCHED.lock().unwrap(); loop { if g.as_ref().unwrap().st.iter().all(|s| *s == St::AtYield || *s == St::Finished) { break; } g = CV.wait(g).unwrap(); } }
+    { let mut g = SCHED.lock().unwrap(); loop { if g.as_ref().unwrap().st.iter().all(|s| *s == St::AtYield || *s == St::Finished || *s == St::Parked) { break; } g = CV.wait(g).unwrap(); } }
     let quiet = |g: &Sched, t: usize| -> bool { g.st[t] == St::Finished || (g.st[t] == St::Parked && { let k = PARKED_TASK[t].load(SeqCst); k == usize::MAX || !WOKEN[k].load(SeqCst) }) };
     let ordinary_done = |nt: usize| -> bool { let g = SCHED.lock().unwrap(); (0..nt).all(|t| t == after_idx || quiet(g.as_ref().unwrap(), t)) };
     for (t, cnt) in segments { if t >= nt || t == after_idx { continue; } for _ in 0..cnt { if !grant(t) { break; } } }
@@ -544,6 +609,7 @@ fn main() {
     }
     if stuck.is_empty() && after_idx != usize::MAX { let mut b = cap; while b > 0 && grant(after_idx) { b -= 1; } if b == 0 { stuck.push(after_idx); } }
     for l in out.lock().unwrap().iter() { println!("{}", l); }
+    if kind.starts_with("MmapMeta") && stuck.is_empty() { ACTIVE.store(0, SeqCst); let c = CLOCK.load(SeqCst); println!("ev {} 0 final_log 0 {} {} {}", nt, c, c, obj.op("final_log", 0, &[]).1); }
     for t in &stuck { println!("stuck {}", t); }
     if !stuck.is_empty() { std::process::exit(3); }   // threads are still blocked at yield points: leave without joining
     for h in handles { let _ = h.join(); }
